@@ -289,6 +289,15 @@ def handle (l : Line) : List String :=
     | none => []
   else
   if l.kind != "case" then [] else
+  -- the big first-observation case: n distinct values of one default-ordered field; key i is the
+  -- i-th observed value, so Less(kᵢ, kⱼ) ⇔ i < j and the sorted keys run from 0 to n−1
+  if let some n := l.nat? "big" then
+    let pairs := ((l.getD "pairs" "").splitOn ",").filterMap fun pr =>
+      match pr.splitOn "-" with
+      | [a, b] => some (a.toNat!, b.toNat!)
+      | _ => none
+    [s!"spec {l.id} probe={String.ofList (pairs.map fun (a, b) => bit (a < b))} first=0 second=1 last={n - 1}"]
+  else
   let ops := decOps (l.getD "ops" "-")
   let pn := pnOf (decPn (l.getD "pn" "-"))
   let raw := decPnRaw (l.getD "pn" "-")
